@@ -20,3 +20,26 @@ pub use multireceiver::MultiReceiverListener;
 pub use multireceiver::ReceiverEndpoint;
 pub use receiver::Config;
 pub use receiver::Receiver;
+
+/// Verification hooks (feature `ypo_flute_verif` only)
+#[cfg(feature = "ypo_flute_verif")]
+pub mod verif_hooks {
+    pub mod blockdecoder {
+        pub use super::super::blockdecoder::*;
+    }
+    pub mod blockwriter {
+        pub use super::super::blockwriter::*;
+    }
+    pub mod fdtreceiver {
+        pub use super::super::fdtreceiver::*;
+    }
+    pub mod objectreceiver {
+        pub use super::super::objectreceiver::*;
+    }
+    pub mod tsifilter {
+        pub use super::super::tsifilter::*;
+    }
+    pub mod uncompress {
+        pub use super::super::uncompress::*;
+    }
+}
